@@ -251,9 +251,14 @@ def run_case(rng, tier, case):
                             a.factors_commodities = list(fc); x['factors_commodities'] = list(fc)
                         elif tn == 'Storage':
                             a.eff_in = x['eff_in'] = gen.pick(rng, [v for v in (0.95, 0.85, 0.7) if v != x.get('eff_in')])
-                        elif isinstance(x.get('max_cap'), (int, float)):
+                        elif isinstance(x.get('max_cap'), (int, float)) and rng.random() < 0.5:
                             nv = float(x['max_cap']) + gen.pick(rng, [1., 2.5])
                             a.max_cap = x['max_cap'] = nv
+                        elif not x.get('freq') and not x.get('min_take') and not x.get('max_take'):
+                            # another lifetime
+                            ns_, ne_, _k = gen.gen_window(rng, spec['grid'], kinds=['inside', 'straddle_start', 'straddle_end', 'start_only', 'end_only', 'none'])
+                            x['start'] = ns_; x['end'] = ne_; x.pop('_date_form', None)
+                            a.start = None if ns_ is None else pd.Timestamp(ns_).to_pydatetime(); a.end = None if ne_ is None else pd.Timestamp(ne_).to_pydatetime()
                         outcome = 'changed a parameter of ' + tn
                 elif op == 'failing_call':
                     bad = dict(pr2); bad.pop(keys[0], None)
@@ -314,6 +319,17 @@ def run_case(rng, tier, case):
     case.spec['history'] = hist
     if fresh_exc is not None:
         case.reject('fresh set-up fails: %s %s' % (type(fresh_exc).__name__, str(fresh_exc)[:100])); return
+    if probe_exc is None and fw_user is None:
+        # the cost vector alone (documented costs_only route - price samples, robust, SLP) for the probe's grid and prices is the cost vector of the
+        # probe problem, whatever grids the objects have seen before
+        try:
+            with env.quiet():
+                c_only = np.asarray(P.setup_optim_problem(b.prices, tgp, costs_only=True), float)
+            same_c = c_only.shape == sh.c.shape and bool(np.allclose(c_only, sh.c, rtol=1e-12, atol=0.))
+            case.check('purity.cost_vector_equals_problem_costs', same_c, history=hist,
+                       worst=float(np.max(np.abs(c_only - sh.c))) if c_only.shape == sh.c.shape and len(c_only) else None, n=[len(c_only), len(sh.c)])
+        except Exception as e:
+            case.check('purity.cost_vector_equals_problem_costs', False, history=hist, error='%s: %s' % (type(e).__name__, str(e)[:160]))
     case.check('purity.probe_does_not_raise', probe_exc is None, history=hist, error=None if probe_exc is None else '%s: %s' % (type(probe_exc).__name__, str(probe_exc)[:200]))
     if probe_exc is None:
         d = problem_diff(sh, sf, rtol=1e-12, compare_mapping=True)
